@@ -164,12 +164,14 @@ func Start() { s := &S; first := s.pick(); s.cur = first; wake(s.wr[first]); wai
 func Finish() (trace, nen, run []int, deadlock bool) {
 	s := &S
 	s.active = false
-	for i := 0; i < s.n; i++ {
-		syscall.Close(s.rd[i])
-		syscall.Close(s.wr[i])
+	if !s.deadlock { // after a deadlock the blocked threads still sit on their pipes
+		for i := 0; i < s.n; i++ {
+			syscall.Close(s.rd[i])
+			syscall.Close(s.wr[i])
+		}
+		syscall.Close(s.mainRd)
+		syscall.Close(s.mainWr)
 	}
-	syscall.Close(s.mainRd)
-	syscall.Close(s.mainWr)
 	trace, nen, run = make([]int, s.tlen), make([]int, s.tlen), make([]int, s.tlen)
 	for i := 0; i < s.tlen; i++ {
 		trace[i], nen[i], run[i] = s.trace[i], s.nen[i], s.run[i]
@@ -239,4 +241,41 @@ func (m *RWMutex) Unlock()  { m.real.Unlock(); release(&m.id, 1) }
 func (m *RWMutex) RLock()   { acquire(&m.id, 2); m.real.RLock() }
 func (m *RWMutex) RUnlock() { m.real.RUnlock(); release(&m.id, 2) }
 
-// TODO for the real thing: Once on top of Mutex; aliases for WaitGroup, Map, Pool, Cond.
+// The rest of package sync is passed through unchanged: these operations are not scheduling points.
+type (
+	WaitGroup = sync.WaitGroup
+	Once      = sync.Once
+	Map       = sync.Map
+	Pool      = sync.Pool
+	Cond      = sync.Cond
+	Locker    = sync.Locker
+)
+
+// NewCond mirrors sync.NewCond.
+func NewCond(l Locker) *Cond { return sync.NewCond(l) }
+
+// TryLock is not used by the library; it is passed through and is not a scheduling point.
+func (m *Mutex) TryLock() bool { return m.real.TryLock() }
+
+// Run executes the bodies as n cooperative threads under the schedule prefix and returns the
+// decisions taken: trace[i] is the choice made at point i among nen[i] enabled threads, and run[i]
+// is 1 when the thread that was running was still enabled (so a non-zero choice is a preemption).
+func Run(prefix []int, bodies []func()) (trace, nen, run []int, deadlock bool) {
+	n := len(bodies)
+	Init(n, prefix)
+	var wg sync.WaitGroup
+	for i := 0; i < n; i++ {
+		wg.Add(1)
+		go func(i int) {
+			defer wg.Done()
+			ThreadStart(i)
+			defer ThreadExit(i)
+			bodies[i]()
+		}(i)
+	}
+	Start()
+	if !S.deadlock {
+		wg.Wait()
+	}
+	return Finish()
+}
